@@ -920,6 +920,22 @@ theorem option_strict_gen_status :
        (signerOptMode.bareValueOptRaises = true ∨ signerOptMode.flagThenValueRaises = true)) := by
   decide +kernel
 
+/-! ## 7b. the repaired state is what the current source shows (reverting a repair breaks these) -/
+
+/-- **Tie (F122)**: `validate_sshsig` asks `cert.validate` for a USER certificate. -/
+theorem sshsig_cert_type_tie : sshsigCertType = 1 := by decide
+
+/-- hence, on the current code, a certificate of any other type never passes the SSHSIG certificate check -/
+theorem sshsig_rejects_other_cert_types_now (c : Cert) (hc : c.ctype ≠ 1) (p : List Nat) (now : Q) :
+    certValidFor sshsigCertType c p now = false :=
+  sshsig_gen_rejects_other_cert_types sshsig_cert_type_tie c hc p now
+
+/-- **Tie (F119, F123)**: the live option parser lower-cases names, refuses a flag repeated with a value and a value
+    option given bare. -/
+theorem signer_option_parser_tie :
+    signerOptMode.lower = true ∧ signerOptMode.flagThenValueRaises = true ∧
+    signerOptMode.bareValueOptRaises = true := by decide
+
 /-! ## 8. allowed-signers data: one line, one entry (F146) -/
 
 /-- **Tie to the code**: the loader splits at newline only, which is what `splitLines` models. -/
